@@ -326,3 +326,60 @@ equiv!(c12_equiv_same, SameSlice);
 equiv!(c12_equiv_last, OtherSlice);
 equiv!(c12_lastorder, HigherSliceFirst);
 equiv!(c12_lastcache, LastThenOther);
+
+// ---------------------------------------------------------------------------------------
+// Native demonstration of the c12_tag finding on the real objects (real RegularShredder, real
+// Ed25519 and SHA-256, real async BlockstoreImpl): `cargo test --lib c12_demo_tag_flip` in the
+// native overlay build.  Not a Kani harness.
+// ---------------------------------------------------------------------------------------
+#[cfg(all(verif_replay, not(kani), test))]
+mod demo {
+    use tokio::sync::mpsc;
+
+    use super::*;
+    use crate::consensus::blockstore::{Blockstore, BlockstoreImpl};
+    use crate::crypto::signature::SecretKey;
+    use crate::shredder::{DATA_SHREDS, Shredder};
+    use crate::test_utils::create_random_block;
+
+    /// A relay flips the data/coding tag of ONE shred of a correct leader's slice.  The shred still
+    /// validates under the leader's key (signature and Merkle path do not cover the tag), a correct
+    /// node stores it, the next honest shred then fails the layout check of reconstruction, the
+    /// *correct* leader is flagged (InvalidBlock) and the node refuses every further shred of the
+    /// slot from dissemination: the block is never reconstructed.
+    #[tokio::test]
+    async fn c12_demo_tag_flip() {
+        let sk = SecretKey::new(&mut rand::rng());
+        let pk = sk.to_pk();
+        let slot = Slot::new(5);
+        let slices = create_random_block(slot, 1);
+        let shreds = RegularShredder::default().shred(&slices[0], &sk).unwrap();
+        assert!(shreds[0].is_data());
+
+        // the attacker's copy of data shred 0, tag flipped to "coding"
+        let flipped = sh::flip_tag(shreds[0].clone().into_shred());
+        let v = ValidatedShred::try_new(flipped.clone(), None, &pk).expect("tag-flipped shred passes full validation");
+        assert!(v.is_coding() && *v.payload().shred_index == 0 && 0 < DATA_SHREDS);
+        assert_eq!(v.commitment(), shreds[1].commitment());
+        // also through the cached-commitment shortcut
+        assert!(ValidatedShred::try_new(flipped, Some(&shreds[1].commitment()), &pk).is_ok());
+
+        // a correct follower
+        let (tx, mut rx) = mpsc::channel(1000);
+        let mut bs = BlockstoreImpl::new(tx);
+        assert_eq!(bs.add_shred_from_dissemination(v).await, Ok(None));
+        assert!(matches!(rx.try_recv(), Ok(BlockstoreEvent::FirstShred(s)) if s == slot));
+        // ... it is stored (and served) as coding shred 0
+        let stored = bs.slot_data(slot).and_then(|d| d.disseminated.shreds.get(&SliceIndex::first())).and_then(|a| a[0].as_ref());
+        assert!(matches!(stored, Some(s) if s.is_coding()));
+        // the next honest shred of the correct leader
+        assert_eq!(bs.add_shred_from_dissemination(shreds[1].clone()).await, Err(AddShredError::InvalidShred));
+        assert!(matches!(rx.try_recv(), Ok(BlockstoreEvent::InvalidBlock(s)) if s == slot));
+        // every further honest shred is refused, the block is never reconstructed from dissemination
+        for s in shreds.iter().skip(2) {
+            assert_eq!(bs.add_shred_from_dissemination(s.clone()).await, Err(AddShredError::InvalidShred));
+        }
+        assert!(bs.disseminated_block_hash(slot).is_none());
+        assert!(rx.try_recv().is_err());
+    }
+}
